@@ -16,10 +16,20 @@ RULE = ("sibling stages s1..sn (n in {2,3}) sharing a mutex key, a deferred-choi
         "a seeded random script of sequential engine actions (deliver a waiting StartStage, run a started stage to completion, deliver a CancelStage / "
         "CompleteWorkflow, run the claim sweep) with the model state compared after every action; monitors replay the status-audit trigger log: never two "
         "live stages per mutex key after any commit, every mutex waiter eventually runs, exactly one member of a choice group ever starts and the others "
-        "end CANCELED. Plus two fixed regression scenarios: a retry loop whose stages share a mutex (jump re-arm of the owner, F30) and the sweep "
+        "end CANCELED. Family bump-retry (three actors, one worker armed twice): a persistent SignalStage(s_a) is pending; worker A handles StartStage(s_a), "
+        "the real SignalStageHandler buffers the signal into s_a's row (a non-claim write: version bump) at a legal point k1 between A's own-row read "
+        "and A's claim transaction, so A's claim transaction loses the version CAS, is rolled back (claim row included) and A retries in-handler; "
+        "StartStage(s_b) is injected at EVERY legal point k2 > k1 of A as it runs with the bump (rest of the first attempt, the re-read, the retry's "
+        "fast-path reads, the retry's claim window, planning, after A); k1 = every legal point of the window (quick: every point for the 2-stage "
+        "workflows, first / last / one seeded point for the 3-stage ones), every ordered pair (a, b) of every workflow; a rolled-back-and-retried claim "
+        "attempt is no model op and its peeks are superseded by the retry's; model comparison, continuation and monitors as for the other schedules. "
+        "Plus two fixed regression scenarios: a retry loop whose stages share a mutex (jump re-arm of the owner, F30) and the sweep "
         "of a terminal execution while the holder is SUSPENDED (F31).")
 ASSUMPTIONS = [
     "Mode B explores the interleavings SQLite's single-writer locking permits at transaction granularity plus all read windows, nested to depth 2 (harness/modeb.py)",
+    "the bump-retry family has one foreign non-claim write per StartStage (one in-handler retry, _claim_retry = 1 of at most 5) and one sibling start placed "
+    "after it; two or more bumps (retries 2..5, the re-queue after the retry limit), a bump by another writer than persistent-signal buffering (join tracking, "
+    "a context-only store_stage: the same version CAS from A's side) and a third StartStage or the sweep inside the retry are not enumerated",
     "the deferred-choice theorems are about executions that are not terminal (nothing should start in a terminal execution: C17); the mutex theorems "
     "and the exclusiveness monitor have no such restriction",
     "delays are treated as elapsed only when nothing else is deliverable (a waiting StartStage is re-delivered when the queue is otherwise idle)",
@@ -28,7 +38,11 @@ TRUSTED_BASE = [
     "Claims models _is_mutex_blocked / _is_deferred_choice_claimed (as possibly stale reads), acquire_claim, the claim transaction of _start_if_ready, "
     "CancelStageHandler, reset_stage_for_retry, CompleteWorkflowHandler._determine_final_status (only as 'execution becomes terminal') and "
     "cleanup_completed_stage_claims; tied to the code by the per-schedule / per-action comparison only",
-    "the trace abstraction in harness/props/c11.py (which DB call is which fast-path read / claim transaction)",
+    "the trace abstraction in harness/props/c11.py (which DB call is which fast-path read / claim transaction; a write transaction rolled back after the "
+    "claim mark and followed by a re-read of the worker's own stage row = a superseded attempt whose peeks and claim are dropped, a rolled-back claim "
+    "transaction NOT followed by a re-read = acquire_claim refused = the model's claim op answering requeued / cancelSelf); Op.rollbacks of harness/modeb.py",
+    "the version bump of the bump-retry family is not an op of the Claims model (it touches neither statuses nor claim rows); that the bump leaves the "
+    "Claims state unchanged is checked per schedule by the state comparison after the race",
     "the PostgreSQL implementations of acquire_claim / cleanup_completed_stage_claims are not exercised",
 ]
 
@@ -78,26 +92,48 @@ def _norm(sql: str) -> str:
 DML = ("INSERT", "INSERT-OR-IGNORE", "UPDATE", "DELETE")
 
 
-def abstract_start(op, idx: int, wf: Wf, sid: str) -> tuple[list[tuple[int, str]], str]:
-    """StartStage(s_idx) trace -> [(call idx, model op)], outcome class."""
+ROW_READ = "SELECT * FROM stage_executions WHERE id = :id"
+FAST_READ = "SELECT * FROM stage_executions WHERE execution_id = :execution_id"
+NOT_CLAIM_DML = ("INSERT-OR-IGNORE.processed_messages", "DELETE.queue_messages")
+
+
+def abstract_start(op, idx: int, wf: Wf, sid: str, info: dict | None = None) -> tuple[list[tuple[int, str]], str]:
+    """StartStage(s_idx) trace -> [(call idx, model op)], outcome class.
+
+    One ATTEMPT = own-row read, fast-path reads (PM / PC), first DML (C: the claim transaction, or the re-queue / self-cancel push of a
+    blocked fast path).  A claim transaction that lost the stage-row CAS against a foreign non-claim write is rolled back as a whole
+    (claim row included) and the handler retries in-handler: it re-reads its own row and runs the fast paths and the claim transaction
+    again.  Such a rolled-back attempt changed nothing durable and decided nothing: it is not a model op, and its peeks are superseded
+    by the retry's peeks.  It is recognised by: a write transaction of this worker rolled back (Op.rollbacks) after the attempt's C mark,
+    followed by a re-read of the worker's own stage row.  (A claim transaction rolled back because acquire_claim REFUSED is followed by
+    the re-queue / self-cancel push, never by a re-read: it stays the attempt's C op, the model's `claim` answering requeued / cancelSelf.)
+    """
     marks: list[tuple[int, str]] = []
     peeks = 0
     want = (["PM"] if wf.mutex else []) + (["PC"] if wf.choice else [])
     claimed_at = None
     out = "ignored"
     seen_row = False
+    superseded = 0
+    retry_from = None
+    rollbacks = list(getattr(op, "rollbacks", []) or [])
     for c in op.calls:
         if c.kind != "exec":
             continue
         s = _norm(c.sql)
         p = c.params if isinstance(c.params, dict) else {}
-        if s.startswith("SELECT * FROM stage_executions WHERE id = :id") and p.get("id") == sid:
+        if s.startswith(ROW_READ) and p.get("id") == sid:
+            if seen_row and claimed_at is not None and any(claimed_at < r <= c.idx for r in rollbacks):
+                # in-handler retry after a rolled-back claim attempt: forget the attempt
+                retry_from = max(r for r in rollbacks if claimed_at < r <= c.idx)
+                marks, peeks, claimed_at, out = [], 0, None, "ignored"
+                superseded += 1
             seen_row = True
-        if claimed_at is None and s == "SELECT * FROM stage_executions WHERE execution_id = :execution_id" and peeks < len(want):
+        if claimed_at is None and s == FAST_READ and peeks < len(want):
             marks.append((c.idx, f"{want[peeks]}{idx}"))
             peeks += 1
         verb = c.tag.split(".")[0]
-        if verb in DML and claimed_at is None and seen_row and c.tag not in ("INSERT-OR-IGNORE.processed_messages", "DELETE.queue_messages"):
+        if verb in DML and claimed_at is None and seen_row and c.tag not in NOT_CLAIM_DML:
             claimed_at = c.idx
             marks.append((c.idx, f"C{idx}"))
         if c.tag == "UPDATE.stage_executions" and p.get("id") == sid and c.rowcount == 1 and out == "ignored":
@@ -114,7 +150,25 @@ def abstract_start(op, idx: int, wf: Wf, sid: str) -> tuple[list[tuple[int, str]
         out = "started" if committed else "ignored"
     if not seen_row:
         out = "dedup"
+    if info is not None:
+        info["superseded"] = superseded
+        info["retry_from"] = retry_from      # call index right after the (last) superseded attempt's rollback
     return marks, out
+
+
+def claim_window(calls, sid: str) -> tuple[int | None, int | None]:
+    """(index of the own-row read, index of the first DML after it = start of the claim transaction) of an un-armed StartStage run."""
+    row = claim = None
+    for c in calls:
+        if c.kind != "exec":
+            continue
+        p = c.params if isinstance(c.params, dict) else {}
+        if row is None and _norm(c.sql).startswith(ROW_READ) and p.get("id") == sid:
+            row = c.idx
+        elif row is not None and c.tag.split(".")[0] in DML and c.tag not in NOT_CLAIM_DML:
+            claim = c.idx
+            break
+    return row, claim
 
 
 class Lab:
@@ -131,11 +185,13 @@ class Lab:
             self.env.close()
         shutil.rmtree(self.dir, ignore_errors=True)
 
-    def base(self, wf: Wf):
+    def base(self, wf: Wf, bump: int | None = None):
+        """bump = i: additionally a persistent SignalStage(s_i) is pending (the non-claim writer of the bump-retry family: its real
+        handler buffers the signal into the NOT_STARTED stage's context, which bumps the row version)."""
         mb = self.mb
         if self.env is not None:
             self.env.close()
-        env = mb.fresh_env(self.dir, wf.key())
+        env = mb.fresh_env(self.dir, wf.key() + ("" if bump is None else f"-sg{bump}"))
         mb.build_siblings(env, wf.n, mutex_key="m" if wf.mutex else None, choice_group="g" if wf.choice else None, tail=False)
         env.start()
         env.deliver(env.find("SW")[0])
@@ -147,6 +203,13 @@ class Lab:
             env.drain(max_steps=12, hold=lambda c: not c.endswith("(s1)") and not c.startswith("CT(s1)"))
             if env.stage_row("s1")["status"] != "SUCCEEDED":
                 raise RuntimeError(f"holder did not complete: {env.state_line()}")
+        if bump is not None:
+            from stabilize.queue.messages import SignalStage
+
+            env.push(SignalStage(execution_type=env.wf_type, execution_id=env.wf_id, stage_id=env.ids[f"s{bump + 1}"], signal_name="go",
+                                 signal_data={"x": 1}, persistent=True))
+            if not env.find(f"SG(s{bump + 1})"):
+                raise RuntimeError(f"signal not pending: {env.state_line()}")
         meta = {"ids": dict(env.ids), "refs": dict(env.refs), "wf_id": env.wf_id, "wf_type": env.wf_type}
         snap = mb.snapshot(env)
         self.env = env
@@ -275,59 +338,101 @@ class Result:
     tags: list
 
 
+def op_tree(ops: list[dict]) -> tuple[dict[str, str | None], dict[str, list[dict]]]:
+    """parent name and children (ordered by injection index) of every op: ops[k] is injected into the op named ops[k]["into"],
+    by default into ops[k-1] (a chain: A, B inside A, C inside B)."""
+    parent: dict[str, str | None] = {}
+    kids: dict[str, list[dict]] = {o["name"]: [] for o in ops}
+    for i, o in enumerate(ops):
+        parent[o["name"]] = o.get("into", ops[i - 1]["name"] if i else None) if i else None
+        if i:
+            kids[parent[o["name"]]].append(o)
+    for k in kids.values():
+        k.sort(key=lambda o: o["at"])
+    return parent, kids
+
+
+def bump_stage(ops: list[dict]) -> int | None:
+    return next((o["stage"] for o in ops if o["kind"] == "G"), None)
+
+
 def run_one(lab: Lab, wf: Wf, ops: list[dict], snap, meta, seed: int) -> Result:
-    """ops[k] = {"name", "kind": "SS"|"W", "stage": idx, "at"}; ops[k+1] injected into ops[k]."""
+    """ops[k] = {"name", "kind": "SS"|"W"|"G", "stage": idx, "at"[, "into"]}; ops[k] is injected at call index `at` of the op named
+    `into` (default: ops[k-1]).  kind G = deliver the pending persistent SignalStage(s_stage) (a non-claim write to the stage row)."""
     import random
 
     mb = lab.mb
     env = lab.env
+    _, kids = op_tree(ops)
 
     def mk(e):
         e.refs, e.ids, e.wf_id, e.wf_type = meta["refs"], meta["ids"], meta["wf_id"], meta["wf_type"]
-        built = None
-        for o in reversed(ops):
-            arm = {} if built is None else {built[1]: built[0]}
+
+        def build(o):
+            arm = {c["at"]: build(c) for c in kids[o["name"]]}
             if o["kind"] == "W":
-                op = e.fn_op(o["name"], "sweep", lambda e=e: e.store.cleanup_completed_stage_claims(), arm)
-            else:
-                rid = e.find(f"SS(s{o['stage'] + 1})")[0]
-                op = e.deliver_op(o["name"], rid, arm)
-            built = (op, o.get("at"))
-        return built[0]
+                return e.fn_op(o["name"], "sweep", lambda e=e: e.store.cleanup_completed_stage_claims(), arm)
+            code = ("SG" if o["kind"] == "G" else "SS") + f"(s{o['stage'] + 1})"
+            return e.deliver_op(o["name"], e.find(code)[0], arm)
+
+        return build(ops[0])
 
     out = mb.run_schedule(env, snap, mk)
     sched = {"wf": asdict(wf), "ops": ops, "seed": seed}
     if out.blocked:
         return Result(sched, False, True, None, None, [], ["blocked"])
-    nontrivial = len(out.ops) > 1 and all(o.injected for o in out.ops[:-1])
+    ran = {o.name: o for o in out.ops}
+    nontrivial = len(out.ops) > 1 and all(c["at"] in ran[n].injected for n, cs in kids.items() for c in cs)
     # ---- model ops of the race ---------------------------------------------------------------
-    abss = []
-    for o, od in zip(out.ops, ops):
+    abss: dict[str, tuple[list[tuple[int, str]], str]] = {}
+    infos: dict[str, dict] = {}
+    for od in ops:
+        o = ran[od["name"]]
         if od["kind"] == "W":
             first = next((c.idx for c in o.calls if c.kind == "exec"), 0)
-            abss.append(([(first, "W")], "swept"))
+            abss[od["name"]] = ([(first, "W")], "swept")
+        elif od["kind"] == "G":
+            abss[od["name"]] = ([], "bumped")         # not an op of the Claims model: it touches neither statuses nor claims
         else:
-            abss.append(abstract_start(o, od["stage"], wf, meta["ids"][f"s{od['stage'] + 1}"]))
+            infos[od["name"]] = {}
+            abss[od["name"]] = abstract_start(o, od["stage"], wf, meta["ids"][f"s{od['stage'] + 1}"], infos[od["name"]])
 
-    def flatten(k: int) -> list[str]:
+    def flatten(name: str) -> list[str]:
         res: list[str] = []
-        marks, _ = abss[k]
-        inj_at = ops[k + 1].get("at") if k + 1 < len(ops) else None
-        done = inj_at is None or not out.ops[k].injected
-        for idx, name in marks:
-            if not done and idx >= inj_at:
-                res += flatten(k + 1)
-                done = True
-            res.append(name)
-        if not done:
-            res += flatten(k + 1)
+        marks, _ = abss[name]
+        todo = [c for c in kids[name] if c["at"] in ran[name].injected]
+        for idx, mark in marks:
+            while todo and idx >= todo[0]["at"]:
+                res += flatten(todo.pop(0)["name"])
+            res.append(mark)
+        for c in todo:
+            res += flatten(c["name"])
         return res
 
-    model_ops = wf.prefix_ops() + flatten(0)
+    model_ops = wf.prefix_ops() + flatten(ops[0]["name"])
     race_len = len(model_ops)
-    race_out = {od["name"]: a[1] for od, a in zip(ops, abss)}
+    race_out = {od["name"]: abss[od["name"]][1] for od in ops}
     impl_states = [observe(env, wf)]
     pendx = sorted(int(c[4:-1]) - 1 for _, c in env.pending() if c.startswith("XS("))
+    tags: list[str] = []
+    if bump_stage(ops) is not None:
+        tags.append("family:bump-retry")
+        inf = infos.get(ops[0]["name"], {})
+        if inf.get("superseded"):
+            tags.append("bump:claim-attempt-rolled-back-and-retried")
+            rb = inf["retry_from"]
+            cmark = next((i for i, m in abss[ops[0]["name"]][0] if m.startswith("C")), None)
+            peek_last = max((i for i, m in abss[ops[0]["name"]][0] if m.startswith("P")), default=None)
+            for c in kids[ops[0]["name"]]:
+                if c["kind"] == "SS" and c["at"] in ran[ops[0]["name"]].injected:
+                    if c["at"] >= rb:
+                        tags.append("bump:B-inside-retry")
+                    if cmark is not None and peek_last is not None and peek_last < c["at"] <= cmark:
+                        tags.append("bump:B-between-retry-fast-path-and-retry-claim")
+        elif ran[ops[0]["name"]].rollbacks:
+            tags.append("bump:claim-refused-no-retry")
+        else:
+            tags.append("bump:no-claim-transaction-rolled-back")      # B ran before A's fast-path reads (A blocked there), or after A
     # ---- continuation --------------------------------------------------------------------------
     rng = random.Random(f"{wf.key()}:{json.dumps(ops)}:{seed}")
     reason = continuation(env, wf, rng, model_ops, impl_states)
@@ -338,7 +443,7 @@ def run_one(lab: Lab, wf: Wf, ops: list[dict], snap, meta, seed: int) -> Result:
     sched["race_len"] = race_len
     sched["trace"] = out.trace
     sched["final"] = {"reason": reason, "state": impl_states[-1]}
-    return Result(sched, nontrivial, False, driver_line, impl_line, violations, [])
+    return Result(sched, nontrivial, False, driver_line, impl_line, violations, tags)
 
 
 def project_model(wf: Wf, model_ops: list[str], race_len: int, ops: list[dict], lean_lines) -> list[str]:
@@ -347,7 +452,74 @@ def project_model(wf: Wf, model_ops: list[str], race_len: int, ops: list[dict], 
     return lines
 
 
+def select_k1(window: list[int], thorough: bool, seed: int, key: str) -> list[int]:
+    """bump points of one (workflow, a): thorough = every legal point of the window; quick = the first, the last (right before the claim
+    transaction's first DML: the read-then-CAS window) and one seeded point in between.  For worker A the points of the window differ
+    only in how many of its fast-path reads come after the bump (those reads do not look at versions)."""
+    import random
+
+    if thorough or len(window) <= 3:
+        return list(window)
+    mid = random.Random(f"k1:{key}:{seed}").choice(window[1:-1])
+    return [window[0], mid, window[-1]]
+
+
+def unit_bump(args: dict) -> dict:
+    """Family bump-retry: A = StartStage(s_a) armed twice: G = the pending persistent SignalStage(s_a) through the real SignalStageHandler
+    at a legal point k1 between A's own-row read and its claim transaction (A's claim transaction then loses the version CAS, is rolled
+    back, A retries in-handler), and B = StartStage(s_b) at every legal point k2 > k1 of A as it runs WITH the bump (so the points of
+    the rolled-back attempt, of the re-read and of the whole retry are all there) and right after A."""
+    _setup_process()
+    wf = Wf(**args["wf"])
+    lab = Lab()
+    res = {"schedules": [], "points": 0, "illegal_points": 0, "bump": {"k1": 0, "k2": 0, "window": 0}}
+    try:
+        mb = lab.mb
+        a, b = args["a"], args["b"]
+        env, snap, meta = lab.base(wf, bump=a)
+        sid = meta["ids"][f"s{a + 1}"]
+
+        def mkA(e, k1=None):
+            e.refs, e.ids, e.wf_id, e.wf_type = meta["refs"], meta["ids"], meta["wf_id"], meta["wf_type"]
+            arm = {} if k1 is None else {k1: e.deliver_op("G", e.find(f"SG(s{a + 1})")[0])}
+            return e.deliver_op("A", e.find(f"SS(s{a + 1})")[0], arm)
+
+        calls = mb.enumerate_points(env, snap, mkA)
+        row, claim = claim_window(calls, sid)
+        if row is None or claim is None:
+            raise RuntimeError(f"no claim window in the un-armed run of SS(s{a + 1}) on {wf.key()}")
+        window = [c.idx for c in calls if c.legal and row < c.idx <= claim]
+        k1s = select_k1(window, args["thorough"], args["seed"], f"{wf.key()}:{a}")
+        shard = args.get("shard") or [1, 0]
+        opA = {"name": "A", "kind": "SS", "stage": a, "at": None}
+        for n_k, k1 in enumerate(k1s):
+            if n_k % shard[0] != shard[1]:
+                continue
+            o1 = mb.run_schedule(env, snap, lambda e, k1=k1: mkA(e, k1))
+            if o1.blocked or not o1.ops[0].injected:
+                res["schedules"].append(vars(Result({"wf": asdict(wf), "ops": [opA, {"name": "G", "kind": "G", "stage": a, "at": k1, "into": "A"}],
+                                                     "seed": args["seed"]}, False, True, None, None, [], ["blocked"])))
+                continue
+            acalls = o1.ops[0].calls
+            k2s = [c.idx for c in acalls if c.legal and c.idx > k1] + [len(acalls)]
+            res["bump"]["k1"] += 1
+            res["bump"]["k2"] += len(k2s)
+            if b == args["first_b"]:
+                res["bump"]["window"] += len(window) if n_k == 0 and shard[1] == 0 else 0
+                res["points"] += len(k2s)
+                res["illegal_points"] += len(acalls) - k1 - (len(k2s) - 1)
+            opG = {"name": "G", "kind": "G", "stage": a, "at": k1, "into": "A"}
+            for k2 in k2s:
+                opB = {"name": "B", "kind": "SS", "stage": b, "at": k2, "into": "A"}
+                res["schedules"].append(vars(run_one(lab, wf, [opA, opG, opB], snap, meta, args["seed"])))
+    finally:
+        lab.close()
+    return res
+
+
 def unit(args: dict) -> dict:
+    if args.get("family") == "bump":
+        return unit_bump(args)
     _setup_process()
     wf = Wf(**args["wf"])
     lab = Lab()
@@ -483,6 +655,11 @@ def digest(ctx, results: list[dict]) -> None:
     for res in results:
         mbx["points"] = mbx.get("points", 0) + res["points"]
         mbx["illegal_points"] = mbx.get("illegal_points", 0) + res["illegal_points"]
+        if res.get("bump"):
+            bx = mbx.setdefault("bump_retry", {"k1_points_run": 0, "k2_points_run": 0, "schedules": 0})
+            bx["k1_points_run"] += res["bump"]["k1"]
+            bx["k2_points_run"] += res["bump"]["k2"]
+            bx["schedules"] += len(res["schedules"])
     allsched = sorted((r for res in results for r in res["schedules"]), key=lambda r: (len(r["sched"]["ops"]), json.dumps(r["sched"]["ops"])))
     for res in [{"schedules": allsched}]:
         for r in res["schedules"]:
@@ -495,7 +672,9 @@ def digest(ctx, results: list[dict]) -> None:
                 ctx.tag("blocked")
                 continue
             ctx.tag("wf:" + Wf(**sched["wf"]).key())
-            ctx.tag("race:" + ">".join(("W" if o["kind"] == "W" else f"SS{o['stage']}") for o in sched["ops"]))
+            ctx.tag("race:" + ">".join(("W" if o["kind"] == "W" else f"{'SG' if o['kind'] == 'G' else 'SS'}{o['stage']}") for o in sched["ops"]))
+            for t in r.get("tags") or []:
+                ctx.tag(t)
             for what, sig in r["violations"]:
                 ctx.violation(what, sig, {"schedule": canon, "model_ops": sched.get("model_ops"), "final": sched.get("final"), "trace": sched.get("trace")})
             if r["nontrivial"]:
@@ -590,7 +769,18 @@ def run(ctx) -> None:
                     else:
                         for r in range(6):      # nested families are ~20x bigger: shard them over the injection points of A
                             units.append({"wf": asdict(wf), "a": a, "b": b, "third": t3, "seed": ctx.seed, "shard": [6, r], "nested_only": True})
-    units.sort(key=lambda u: 0 if u.get("nested_only") else 1)
+    # family bump-retry: A = SS(s_a) with the signal bump at k1 and B = SS(s_b) at every later legal point (see unit_bump)
+    for wf in workflows(ctx.thorough):
+        idx = wf.racers()
+        every_k1 = ctx.thorough or wf.n == 2        # quick: every bump point for the 2-stage workflows, 3 per (workflow, a) for the others
+        nshard = 7 if every_k1 else 3
+        for a in idx:
+            others = [b for b in idx if b != a]
+            for b in others:
+                for r in range(nshard):
+                    units.append({"family": "bump", "wf": asdict(wf), "a": a, "b": b, "first_b": others[0], "seed": ctx.seed,
+                                  "thorough": every_k1, "shard": [nshard, r]})
+    units.sort(key=lambda u: 0 if u.get("nested_only") else (1 if u.get("family") == "bump" else 2))
     t0 = time.time()
     with _pool(min(16, os.cpu_count() or 4)) as pool:
         results = pool.map(unit, units, chunksize=1)
@@ -630,9 +820,10 @@ def replay_body(body: dict) -> dict:
     wf = Wf(**sched["wf"])
     lab = Lab()
     try:
-        env, snap, meta = lab.base(wf)
+        env, snap, meta = lab.base(wf, bump=bump_stage(sched["ops"]))
         r = run_one(lab, wf, sched["ops"], snap, meta, sched.get("seed", 0))
-        return {"violations": r.violations, "trace": r.sched.get("trace"), "final": r.sched.get("final"), "model_ops": r.sched.get("model_ops")}
+        return {"violations": r.violations, "trace": r.sched.get("trace"), "final": r.sched.get("final"), "model_ops": r.sched.get("model_ops"),
+                "tags": r.tags}
     finally:
         lab.close()
 
